@@ -9,6 +9,7 @@
 (*   [op |-> "store"]                   a StoreCookie call                 *)
 (*   GSpec  exhaustive: every history within the bounds (hist is part of   *)
 (*          the state, so TLC visits every script exactly once)            *)
+(*          (with CONSTRAINT Decorated: only almost-acceptable messages)   *)
 (*   SSpec  for `tlc -simulate`: random walks through the same actions     *)
 (*          with RandomElement draws biased towards long, well-formed      *)
 (*          messages, so that failures happen late and pools get used up   *)
@@ -16,6 +17,8 @@
 (* strict mode) to the step-by-step actions of NtsKe.                      *)
 (***************************************************************************)
 EXTENDS NtsKeMC, Json
+
+CONSTANT Tails   \* TRUE: the peer's message may go on after the record at which the client gave up
 
 VARIABLES hist,   \* the history so far
           pre     \* Fetcher.data and session count before the current / last FetchData call
@@ -39,6 +42,20 @@ GCut(r, w) == /\ ReadCut(r, w)
               /\ UNCHANGED pre
 GStore   == StoreCookie /\ hist' = Append(hist, StoreOp) /\ UNCHANGED pre
 
+\* What the peer sends after the record that made this client give up (an error
+\* record, an unrecognised critical record) is of no consequence for the
+\* specification's client, but it is part of the peer's behaviour: an
+\* implementation that wrongly reads on will see it.
+TailOpen ==
+  /\ Tails /\ conn = "failed" /\ hist # << >>
+  /\ LET o == hist[Last] IN
+       /\ o.op = "fetch" /\ o.cut = "none" /\ o.recs # << >>
+       /\ \E i \in DOMAIN o.recs : Stops(o.recs[i])
+       /\ o.recs[Len(o.recs)] # "eom" /\ Len(o.recs) < MaxRecs
+GTail(r) == /\ TailOpen
+            /\ hist' = [hist EXCEPT ![Last].recs = Append(@, r)]
+            /\ UNCHANGED <<vars, pre>>
+
 GNext ==
   \/ GCached
   \/ \E a \in Alpns : GDial(a)
@@ -46,38 +63,57 @@ GNext ==
   \/ \E r \in Alphabet : GRead(r)
   \/ \E r \in CutRecs, w \in {"hdr", "body"} : GCut(r, w)
   \/ GStore
+  \/ \E r \in Alphabet : GTail(r)
 
 GSpec == GInit /\ [][GNext]_gvars
 
 \* ------------------------------------------------------------ simulation
 Pick(S) == RandomElement(S)
 PickSeq(s) == s[Pick(1 .. Len(s))]
-Likely == <<"np", "a15", "a15", "ck", "ck", "ck", "ck", "sA", "sB", "pA", "pB", "un", "eom", "eom">>
+\* before / after the message has what it needs to be accepted
+LikelyMid == <<"np", "a15", "a15", "a15", "ck", "ck", "ck", "ck", "sA", "sB", "pA", "pB", "un", "un">>
+LikelyEnd == <<"ck", "ck", "un", "sA", "pB", "eom", "eom", "eom", "eom", "eom">>
+LikelyTail == <<"a15", "ck", "ck", "np", "eom", "eom">>
 
 SNext ==
   \/ /\ Idle
      /\ \E k \in {Pick(1 .. 12)} :
-          IF data.pool # << >>
+          IF TailOpen /\ k <= 9 THEN GTail(PickSeq(LikelyTail))
+          ELSE IF data.pool # << >>
           THEN IF k <= 2 /\ ENABLED StoreCookie THEN GStore ELSE GCached
           ELSE IF k = 1 /\ ENABLED StoreCookie THEN GStore
           ELSE \E a \in {IF k <= 9 THEN "ntske/1" ELSE Pick(Alpns)} : GDial(a)
   \/ GLocal
   \/ /\ conn = "reading"
-     /\ \E k \in {Pick(1 .. 14)} :
+     /\ \E k \in {Pick(1 .. 20)} :
           IF k = 1 THEN GClose
           ELSE IF k = 2
           THEN \E r \in {Pick(CutRecs)}, w \in {Pick({"hdr", "body"})} :
                  IF sv.n < MaxRecs THEN GCut(r, IF HasBody(r) THEN w ELSE "hdr") ELSE GClose
-          ELSE \E r \in {IF k <= 6 THEN Pick(Alphabet) ELSE PickSeq(Likely)} :
+          ELSE \E r \in {IF k <= 4 THEN Pick(Alphabet)
+                          ELSE IF sv.a15 /\ sv.nck >= 1 THEN PickSeq(LikelyEnd) ELSE PickSeq(LikelyMid)} :
                  IF sv.n < MaxRecs THEN GRead(r) ELSE GClose
 
 SSpec == GInit /\ [][SNext]_gvars
+
+\* ------------------------------------------------------- decorated family
+\* state constraint for the exhaustive generator: scripts that consist of AEAD(15)
+\* and cookie records plus AT MOST ONE other record before the end (the messages
+\* that succeed or just fail to: every record kind in every position of an
+\* otherwise acceptable message)
+Plain == {"a15", "ck", "eom"}
+Decorated ==
+  hist = << >> \/
+    LET rs == hist[Last].recs
+    IN Cardinality({i \in DOMAIN rs : rs[i] \notin Plain}) <= 1
 
 \* ------------------------------------------------------------- emitters
 \* no further FetchData call is possible within the bounds
 Done == /\ Idle /\ hist # << >>
         /\ ncalls = MaxCalls \/ (data.pool = << >> /\ ndials = MaxDials)
 Emit == Done => PrintT(<<"CASE", ToJson([h |-> hist])>>)
+\* (TLC evaluates invariants also on the states a CONSTRAINT discards)
+EmitDecorated == (Done /\ Decorated) => PrintT(<<"CASE", ToJson([h |-> hist])>>)
 
 \* the function used by strict trace validation computes what the actions do
 RunAgrees ==
